@@ -11,7 +11,10 @@ hs = sys.argv[6:]
 injections = []
 for part in inj.split(","):
     rel, h, mod = part.split("=")
-    injections.append((rel, os.path.abspath(h), mod, "kani"))
+    import p_kani
+    priv = os.path.join("/var/tmp", "probe_%s_%s" % (tag, os.path.basename(h)))
+    open(priv, "w").write(p_kani.expand_vasserts(open(h).read()))
+    injections.append((rel, priv, mod, "kani"))
 w = ws.prepare(tag, injections, lib_attrs={"steel-core": ["#![cfg_attr(kani, feature(allocator_api))]"]} if crate == "steel-core" else None)
 root = os.path.dirname(w)
 print("ws:", w, flush=True)
